@@ -98,7 +98,7 @@ pub fn main(args: &[String]) {
     let mut k = 0;
     while cases.len() < n && k < n * 3 {
         k += 1;
-        let mut m = Gen::valid_module(&mut rng, prof);
+        let mut m = Gen::valid_module_avoiding(&mut rng, prof, crate::tygen::Avoid { more_zst: true, opt_unit_write: true, ..Default::default() });
         // twins are added before the helper methods; the spelling fixes of `prepare` apply to both
         let pairs = add_twins(&mut m);
         let mut case = e2e::make_case(m, cases.len(), &mut rng);
